@@ -57,6 +57,16 @@ def same(a, b):
     if fa == fb: return True
     if has_u(a) or has_u(b): return None
     if _strip_ids(tuple(fa)) == _strip_ids(tuple(fb)): return None     # two separate data-dependent selections with the same text
+    # a selection by VALUES of the data (a mask computed from the matrix, an unnamed filter) may or may not coincide with a named subset of the
+    # same base: undecided as long as the bases line up block by block
+    def dd(x): return x[0] == 'SUB' and isinstance(x[2], str) and x[2].startswith(('data-dependent', 'filter:?'))
+    def base(x):
+        while x[0] == 'SUB': x = x[1]
+        return x
+    if any(dd(x) for x in fa + fb):
+        ba = [base(x) for x in fa]; bb = [base(x) for x in fb]
+        # blocks that a named filter may empty (ASSUME_A1 drops them from flat) are tolerated on either side
+        if ba == bb or set(map(repr, ba)) >= set(map(repr, bb)) or set(map(repr, bb)) >= set(map(repr, ba)): return None
     return False
 
 
